@@ -604,7 +604,8 @@ impl Decoder {
                 }
                 let (iv, ciphertext) = data.split_at_mut(16);
                 let cipher =
-                    t!(Aes256CbcDec::new_from_slices(self.key(), iv).map_err(|_| PdfError::DecryptionFailure));
+                    // AES-256 uses the whole 32-byte file key (key() caps at the 16 bytes of the RC4/AES-128 schemes)
+                    t!(Aes256CbcDec::new_from_slices(&self.key, iv).map_err(|_| PdfError::DecryptionFailure));
                 Ok(t!(cipher
                     .decrypt_padded_mut::<Pkcs7>(ciphertext)
                     .map_err(|_| PdfError::DecryptionFailure)))
